@@ -57,6 +57,10 @@ static Scn make_scenario(const std::string& fam) {
         std::string p(8, 'q'); s.init.push_back("a");
         for (int i = 0; i < 15; i++) s.init.push_back(p + kb(10 + 10 * i));
         std::vector<std::string> c = {p + kb(5), p + kb(85), p + kb(155), p + kb(80), p, "a", "b"}; add_uni(c, 4);
+    } else if (fam == "ddl") {        // storage directory: concurrent create / delete / find of the same names
+        std::vector<std::string> c = {std::string("s1"), std::string("a\0b", 3), std::string("a\0bcdefghi", 10), std::string()};
+        std::shuffle(c.begin(), c.end(), rng); int n = rng() % 3; for (int i = 0; i < n; i++) s.init.push_back(c[i]);
+        s.uni.push_back(c[0]); s.uni.push_back(c[2]); if (rng() % 2) s.uni.push_back(c[3]);
     } else {                          // "three": two interior levels (16 x 16 borders is too large: use ~140 keys -> 2 levels)
         int n = 130 + rng() % 40; for (int i = 0; i < n; i++) { std::string k; k.push_back((char)(i / 16 + 1)); k.push_back((char)(i % 16 * 8 + 4)); s.init.push_back(k); }
         std::vector<std::string> c; for (int j = 0; j < 12; j++) { int i = rng() % n; std::string k; k.push_back((char)(i / 16 + 1)); k.push_back((char)(i % 16 * 8 + 4 + (rng() % 2 ? 0 : 3))); c.push_back(k); } add_uni(c, 6);
@@ -100,7 +104,8 @@ int main(int argc, char** argv) {
                 o.l = a; o.r = b; o.max = (rng() % 4 == 0) ? 1 + rng() % 2 : 0;
                 if (o.kind == "scan" && rng() % 6 == 0) { o.rtl = true; o.re = scan_endpoint::INF; o.r = ""; o.max = 1; }
                 if (o.kind == "iscan") { o.rtl = rng() % 2; o.max = 0; o.ea = false; o.limit = (rng() % 3 == 0) ? (long)(rng() % 3) : -1; }
-            } else { long y = rng() % 100; o.kind = y < 30 ? "get" : y < 55 ? "put" : y < 70 ? "uput" : "rem"; o.k = k; o.uniq = o.kind == "uput"; }
+            } else if (fam == "ddl") { long y = rng() % 100; o.kind = y < 45 ? "create" : y < 85 ? "delete" : "find"; o.k = k; }
+            else { long y = rng() % 100; o.kind = y < 30 ? "get" : y < 55 ? "put" : y < 70 ? "uput" : "rem"; o.k = k; o.uniq = o.kind == "uput"; }
             o.t = (int)t + 1; prog[t].push_back(o); } }
         // schedules for this scenario
         long nsched = runs; std::vector<std::vector<std::pair<int, long>>> plans;
@@ -113,8 +118,10 @@ int main(int argc, char** argv) {
             if (sched == "pre1") { int a = plans[r].size() == (std::size_t)nth ? -1 : plans[r][0].first; long k = a < 0 ? 0 : plans[r][0].second;
                 if (a >= 0 && thread_len_known[a] && k >= thread_len[a]) continue; }
             // build the initial tree
-            tree_instance ti; Token setup{}; enter(setup); std::vector<std::pair<std::string, int>> initv;
-            for (auto& k : scn.init) { int id = ++vctr; int buf[8]; venc(id, buf); put<char>(setup, &ti, k, (char*)buf, false, vlen(id)); initv.push_back({k, id}); }
+            tree_instance ti_local; const bool ddl = fam == "ddl"; tree_instance& ti = ddl ? *storage::get_storages() : ti_local;
+            Token setup{}; enter(setup); std::vector<std::pair<std::string, int>> initv;
+            if (ddl) for (auto& k : scn.init) { create_storage(k); initv.push_back({k, 1}); }
+            else for (auto& k : scn.init) { int id = ++vctr; int buf[8]; venc(id, buf); put<char>(setup, &ti, k, (char*)buf, false, vlen(id)); initv.push_back({k, id}); }
             std::vector<Token> tok(nth); for (auto& t : tok) enter(t);
             std::vector<std::vector<Op>> ops = prog; for (auto& v : ops) for (auto& o : v) if (o.kind == "put" || o.kind == "uput") o.v = ++vctr;
             g_seq = 0;
@@ -125,6 +132,9 @@ int main(int argc, char** argv) {
                     if (o.kind == "get") { std::pair<char*, std::size_t> out{nullptr, 0}; status rc = get<char>(&ti, o.k, out); o.st = vh::stname(rc); o.rv = rc == status::OK ? vdec(out.first, out.second) : -1; }
                     else if (o.kind == "put" || o.kind == "uput") { int buf[8]; venc(o.v, buf); status rc = put<char>(tok[t], &ti, o.k, (char*)buf, o.uniq, vlen(o.v)); o.st = vh::stname(rc); }
                     else if (o.kind == "rem") { status rc = remove(tok[t], &ti, o.k); o.st = vh::stname(rc); }
+                    else if (o.kind == "create") { status rc = create_storage(o.k); o.st = vh::stname(rc); o.v = 1; }
+                    else if (o.kind == "delete") { status rc = delete_storage(o.k); o.st = vh::stname(rc); }
+                    else if (o.kind == "find") { status rc = find_storage(o.k); o.st = vh::stname(rc); o.rv = rc == status::OK ? 1 : -1; }
                     else if (o.kind == "scan") { std::vector<std::tuple<std::string, char*, std::size_t>> tl; status rc = scan<char>(&ti, o.l, o.le, o.r, o.re, tl, &o.nv, o.max, o.rtl); o.st = vh::stname(rc);
                         for (auto& e : tl) o.tl.push_back({std::get<0>(e), vdec(std::get<1>(e), std::get<2>(e))}); }
                     else if (o.kind == "iscan") {
@@ -161,15 +171,20 @@ int main(int argc, char** argv) {
             out += "],\"final\":[";
             std::vector<std::string> allk = scn.uni; for (auto& kv : initv) if (std::find(allk.begin(), allk.end(), kv.first) == allk.end()) allk.push_back(kv.first);
             std::sort(allk.begin(), allk.end());
-            for (std::size_t i = 0; i < allk.size(); i++) { std::pair<char*, std::size_t> o2{nullptr, 0}; status rc = get<char>(&ti, allk[i], o2); if (i) out += ","; out += "[" + vh::jbytes(allk[i]) + "," + std::to_string(rc == status::OK ? vdec(o2.first, o2.second) : -1) + "]"; }
+            for (std::size_t i = 0; i < allk.size(); i++) { int fv = -1;
+                if (ddl) { fv = find_storage(allk[i]) == status::OK ? 1 : -1; } else { std::pair<char*, std::size_t> o2{nullptr, 0}; status rc = get<char>(&ti, allk[i], o2); fv = rc == status::OK ? vdec(o2.first, o2.second) : -1; }
+                if (i) out += ","; out += "[" + vh::jbytes(allk[i]) + "," + std::to_string(fv) + "]"; }
             out += "],\"fscan\":[";
-            { std::vector<std::tuple<std::string, char*, std::size_t>> tl; scan<char>(&ti, "", scan_endpoint::INF, "", scan_endpoint::INF, tl, nullptr, 0, false);
+            if (ddl) { std::vector<std::pair<std::string, tree_instance*>> ls; list_storages(ls); for (std::size_t i = 0; i < ls.size(); i++) { if (i) out += ","; out += "[" + vh::jbytes(ls[i].first) + ",1]"; } }
+            else { std::vector<std::tuple<std::string, char*, std::size_t>> tl; scan<char>(&ti, "", scan_endpoint::INF, "", scan_endpoint::INF, tl, nullptr, 0, false);
               for (std::size_t i = 0; i < tl.size(); i++) { if (i) out += ","; out += "[" + vh::jbytes(std::get<0>(tl[i])) + "," + std::to_string(vdec(std::get<1>(tl[i]), std::get<2>(tl[i]))) + "]"; } }
             out += "],\"uni\":["; for (std::size_t i = 0; i < scn.uni.size(); i++) { if (i) out += ","; out += vh::jbytes(scn.uni[i]); } out += "]";
-            { vh::Canon c(&ti); out += ",\"dump\":" + vh::dump_json(c, valjson); }
+            if (ddl && ti.load_root_ptr() == nullptr) out += ",\"dump\":{\"root\":0,\"nodes\":[]}";
+            else { vh::Canon c(&ti); out += ",\"dump\":" + vh::dump_json(c, ddl ? std::function<std::string(link_or_value*)>([](link_or_value* lv) { return std::string(lv->get_value() ? "[\"V\",1]" : "[\"N\"]"); }) : std::function<std::string(link_or_value*)>(valjson)); }
             out += "}"; puts(out.c_str());
             for (auto& t : tok) leave(t); leave(setup);
-            if (auto* rt = ti.load_root_ptr()) { rt->destroy(); delete rt; ti.store_root_ptr(nullptr); }
+            if (ddl) destroy();
+            else if (auto* rt = ti.load_root_ptr()) { rt->destroy(); delete rt; ti.store_root_ptr(nullptr); }
         }
     }
     thread_info_table::fin();
